@@ -73,6 +73,14 @@ func (fc *fnCtx) execBlock(b *ssa.BasicBlock, st *state, edgeIn map[*ssa.BasicBl
 			fc.assume(st, fmt.Sprintf("(= (chancap %s) %s)", r.T, fc.val(i.Size).T))
 			cl := fc.heapVar(st, "ch!closed", "(Array V Bool)")
 			fc.setHeap(st, "ch!closed", "(Array V Bool)", fmt.Sprintf("(store %s %s false)", cl, r.T))
+			// nothing has been sent on / received from a new channel
+			es := fc.sortOf(i.Type().Underlying().(*types.Chan).Elem())
+			if es != "BIG" {
+				for _, k := range []string{"sent", "rcvd"} {
+					hv, hs := fc.seqVar(k, es)
+					fc.setHeap(st, hv, hs, fmt.Sprintf("(store %s %s %s)", fc.heapVar(st, hv, hs), r.T, fc.e.sorts.zeroOfSort("(Slice "+es+")")))
+				}
+			}
 			fc.env[i] = r
 		case *ssa.MakeClosure:
 			r := fc.allocRef(st, "clo", i.Type())
@@ -516,7 +524,9 @@ func (fc *fnCtx) implFn(it types.Type) string {
 	n := "|impl!" + typeName(it) + "|"
 	if _, ok := fc.ifaces[n]; !ok {
 		fc.ifaces[n] = it.Underlying().(*types.Interface)
-		fc.decls = append(fc.decls, fmt.Sprintf("(declare-fun %s (GoType) Bool)", n))
+		if !fc.e.theoryDeclares(fc.theories, n) {
+			fc.decls = append(fc.decls, fmt.Sprintf("(declare-fun %s (GoType) Bool)", n))
+		}
 	}
 	return n
 }
